@@ -241,6 +241,7 @@ fn main() {
     }
     util::quiet_stderr();
     util::silence_panics();
+    std::env::set_var("VERIF_TIER", &tier);
     let mut r = Report::new("C20", &tier, util::seed_from_env());
     c20(&mut r);
     let n_sanit = if r.quick() { 30 } else { 400 };
